@@ -241,7 +241,7 @@ fn fee_tx(cons: &Consensus, g: &[(OutPoint, u64)], i: usize, fee: u64, n_out: us
 pub fn meta(_tier: Tier) -> Meta {
     Meta {
         id: "C06",
-        level: "model_checking",
+        level: "exploration",
         rule: "flat world with 4-block epochs and a primary epoch reward that leaves a remainder; main chain of 22 blocks and a 10-block fork from block 6, built by the forge (ckb's calculators, every block fully verified as a tip). Assignments: a transaction proposed by two different blocks inside the window of its commit, proposed only through an uncle, committed at distance 2 and at distance 4, proposed - expired - proposed again - committed, two and three commits in one block, a child spending its parent's output in the next block, blocks proposing without any commit, fees from 1 shannon-odd values up to 0.5 CKB, outputs with data and type scripts (occupied capacity). Assignment family: three fee-paying transactions on a 13-block chain, every assignment of (first proposing block 2..4, a second proposer 1 or 2 blocks later or none, commit distance 2..4) for two of them x three assignments of the third (quick: 4 x 4 x 1). For EVERY block of EVERY chain an independent replay (plain integer arithmetic over a cell map, written from the issuance rules) must reproduce: cellbase capacity = primary(t) + g2(t)*U(t-1)/C(t-1) + sum(fee - floor(fee*4/10)) over t's commits + sum floor(fee*4/10) over commits in (t+close..t+far) whose first proposer inside their window is t, for t = n - 5 (nothing before block 6); cellbase lock = t's miner lock; DAO field (C, AR, S, U) = accumulation rule on the parent; U = occupied capacity of the live cells; live capacity + rewards and fee shares still to be paid = C - S.",
         assumptions: &["no NervosDAO deposits / withdrawals (the world's genesis has no DAO script): the withdrawal formula is not exercised", "issuance halving and dynamic epoch lengths are C07's subject", "the genesis DAO field is the initial condition"],
         bounds: json!({"main_chain_blocks": 22, "fork_blocks": 10}),
